@@ -29,6 +29,7 @@ pub const EDIT_KINDS: &[&str] = &[
     "toggle_pub",
     "edit_string_literal",
     "shift_space_in_line",
+    "change_attribute",
 ];
 
 const NEW_ITEMS: &[&str] = &[
@@ -451,6 +452,44 @@ pub fn apply(kind: &str, cur: &str, rng: &mut Rng) -> Option<String> {
                 _ => s.insert_str(at, "ed"),
             }
             Some(s)
+        }
+        "change_attribute" => {
+            // Attribute edits: inline hints, derive lists, adding / removing an attribute line.
+            let attr_lines: Vec<usize> = lines.iter().enumerate().filter(|(_, l)| l.trim_start().starts_with("#[")).map(|(i, _)| i).collect();
+            let fn_lines: Vec<usize> = lines.iter().enumerate().filter(|(_, l)| l.starts_with("fn ") || l.starts_with("pub fn ")).map(|(i, _)| i).collect();
+            match rng.below(4) {
+                0 if !attr_lines.is_empty() => {
+                    let i = attr_lines[rng.below(attr_lines.len())];
+                    let l = lines[i].clone();
+                    let new = if l.contains("inline(always)") {
+                        l.replace("inline(always)", "inline(never)")
+                    } else if l.contains("inline(never)") {
+                        l.replace("inline(never)", "inline(always)")
+                    } else if l.contains("derive(") && l.contains(", ") {
+                        // Drop the last derive.
+                        match l.rfind(", ") {
+                            Some(p) => format!("{}{}", &l[..p], &l[l.rfind(')').unwrap_or(l.len())..]),
+                            None => return None,
+                        }
+                    } else if l.contains("derive(") {
+                        l.replace("derive(", "derive(Debug, ")
+                    } else {
+                        return None;
+                    };
+                    lines[i] = new;
+                    Some(join(&lines))
+                }
+                1 if !attr_lines.is_empty() => {
+                    lines.remove(attr_lines[rng.below(attr_lines.len())]);
+                    Some(join(&lines))
+                }
+                _ if !fn_lines.is_empty() => {
+                    let i = fn_lines[rng.below(fn_lines.len())];
+                    lines.insert(i, ["#[inline(always)]", "#[inline(never)]", "#[inline]", "#[must_use]"][rng.below(4)].to_string());
+                    Some(join(&lines))
+                }
+                _ => None,
+            }
         }
         "shift_space_in_line" => {
             // Move one space from one place of a line to another: the line keeps its length, tokens
